@@ -40,7 +40,7 @@ Definition sc_setclosedeadline_locked : bool := true.
 Definition sc_serve_reads_context_every_turn : bool := true.
 Definition sc_closesession_sets_bit_before_write : bool := true.
 Definition sc_writedeadline_cleared_where_expired : bool := true.
-Definition sc_newconn_deadlines_from_prev : bool := false.
+Definition sc_newconn_deadlines_from_prev : bool := true.
 Definition sc_setclosedeadline_fresh_context : bool := true.
 Definition sc_setclosedeadline_cancels_previous : bool := true.
 Definition sc_setclosedeadline_zero_is_no_deadline : bool := true.
